@@ -62,25 +62,33 @@ CORPUS = [
     b"https://www.good.example/", b"https://good.example/", b"https://verygood.example/", b"https://good.example.evil.example/",
 ]
 
-SCHEMES = [b"https"] * 14 + [b"HTTPS", b"hTTps", b"http", b"https ", b"javascript", b"", b"https+x", b"htt ps", b"ftp"]
-SEPS = [b"://"] * 16 + [b":/", b":", b":///", b":/\\", b":\\\\", b"://\\", b":////", b"//"]
-PORTS = [b""] * 8 + [b":443", b":8443", b":", b":0", b":80:90", b":x", b":99999", b":443 ", b":%34"]
-PATHS = [b"", b"/", b"/cb", b"/cb", b"/oauth2/callback", b"/a/b/", b"/a/../b", b"/%2e%2e/", b"/..", b"/a b", b"/\\evil.example",
+SCHEMES = [b"https"] * 40 + [b"HTTPS", b"hTTps", b"http", b"https ", b"javascript", b"", b"https+x", b"htt ps", b"ftp"]
+SEPS = [b"://"] * 40 + [b":/", b":", b":///", b":/\\", b":\\\\", b"://\\", b":////", b"//"]
+PORTS = [b""] * 16 + [b":443", b":8443", b":", b":0", b":443", b":10443", b":80:90", b":x", b":99999", b":443 ", b":%34"]
+PATHS = [b"", b"/", b"/cb", b"/cb", b"/oauth2/callback", b"/a/b/"] * 4 + [ b"/a/../b", b"/%2e%2e/", b"/..", b"/a b", b"/\\evil.example",
          b"/cb/", b"/~u/cb;x=1", b"/%41", b"/%zz", b"/.%2e/", b"/a..b", b"//evil.example/", b"/@evil.example", b"/%2F..", b"/\xc3\xa9"]
-QUERIES = [b""] * 10 + [b"?", b"?x=y", b"?code=1", b"??", b"?#"]
-FRAGS = [b""] * 10 + [b"#", b"#frag", b"#@good.example.com", b"#%zz", b"#?x=1", b"#\t", b"#/../.."]
-USERS = [b""] * 12 + [b"user@", b"user:pw@", b"a@b@", b"%40@", b"u%zz@", "é@".encode(), b"@", b"evil.example\\@", b"u:p:q@", b"u%3Ap@"]
+QUERIES = [b""] * 30 + [b"?", b"?x=y", b"?code=1", b"??", b"?#"]
+FRAGS = [b""] * 20 + [b"#", b"#frag", b"#@good.example.com", b"#%zz", b"#?x=1", b"#\t", b"#/../.."]
+USERS = [b""] * 30 + [b"user@", b"user:pw@", b"u-1@", b"u:@", b"a@b@", b"%40@", b"u%zz@", "é@".encode(), b"@", b"evil.example\\@", b"u:p:q@", b"u%3Ap@"]
 ATOMS = [b"\\", b"/", b"@", b":", b"#", b"?", b".", b"..", b"%2e", b"%2E", b"%40", b"%2f", b"%5c", b"%25", b"%00", b"%0a", b"%e3%80%82",
          b"%", b"%zz", b"[", b"]", b"\t", b"\n", b"\r", b" ", b"\x00", b"\x0b", b"\x7f", b"\x80", b"\xff", "。".encode(), "．".encode(),
          "｡".encode(), "é".encode(), b"-", b"_", b"~", b"!", b"$", b"&", b"'", b"(", b")", b"*", b"+", b",", b";", b"=", b"<", b">",
          b"\"", b"^", b"|", b"{", b"}", b"`", b"a", b"Z", b"0", b"evil.example", b"example.com", b"xn--"]
 
 
+def legit_host(rng, d):
+    if d == b"example.org" and rng.random() < 0.6:
+        d = b"example.org."            # client "odd" is configured with the trailing dot
+    if d == b"example.io" and rng.random() < 0.6:
+        d = b"Example.IO"              # ... and with capitals
+    return rng.choice([d, b"www." + d, b"a.b." + d, b"app-1." + d, b"x." + d])
+
+
 def gen_host(rng):
     d = rng.choice(DOMS)
     k = rng.random()
-    if k < 0.50:
-        return rng.choice([d, b"www." + d, b"a.b." + d, b"app-1." + d, b"x." + d])
+    if k < 0.62:
+        return legit_host(rng, d)
     forms = [b"evil" + d, b"evil-" + d, d + b".evil.example", d + b".", b"www." + d + b".", b"." + d, b".." + d, d.upper(),
              b"WWW." + d, b"www." + d.title(), b"evil.example", b"evil.example." + d, d + b"@evil.example", b"evil.example@" + d,
              b"evil.example#@" + d, b"evil.example\\@" + d, b"evil.example%2e" + d, "evil。".encode() + d, d + "。evil.example".encode(),
@@ -108,12 +116,23 @@ def gen(rng, n):
     out = list(CORPUS)
     seen = set(out)
     while len(out) < n:
-        s = (rng.choice(SCHEMES) + rng.choice(SEPS) + rng.choice(USERS) + gen_host(rng) + rng.choice(PORTS)
-             + rng.choice(PATHS) + rng.choice(QUERIES) + rng.choice(FRAGS))
+        if rng.random() < 0.45:
+            # a well-formed URL with exactly one part taken from the adversarial lists
+            parts = [b"https", b"://", rng.choice([b"", b"", b"", b"user@", b"u:p@"]), legit_host(rng, rng.choice(DOMS)),
+                     rng.choice([b"", b"", b":443", b":8443"]), rng.choice([b"", b"/", b"/cb", b"/oauth2/callback", b"/a/b/", b"/~u/cb;x=1"]),
+                     b"", rng.choice([b"", b"", b"", b"#frag"])]
+            k = rng.randrange(len(parts) + 2)
+            if k < len(parts):
+                parts[k] = [rng.choice(SCHEMES), rng.choice(SEPS), rng.choice(USERS), gen_host(rng), rng.choice(PORTS),
+                            rng.choice(PATHS), rng.choice(QUERIES), rng.choice(FRAGS)][k]
+            s = b"".join(parts)
+        else:
+            s = (rng.choice(SCHEMES) + rng.choice(SEPS) + rng.choice(USERS) + gen_host(rng) + rng.choice(PORTS)
+                 + rng.choice(PATHS) + rng.choice(QUERIES) + rng.choice(FRAGS))
         r = rng.random()
-        if r < 0.30:
+        if r < 0.22:
             s = mutate(rng, s)
-        elif r < 0.33:
+        elif r < 0.26:
             s = mutate(rng, rng.choice(CORPUS))
         if s not in seen:
             seen.add(s)
